@@ -60,7 +60,7 @@ def make_case(tier, seed, index):
     if index % simprop.CORPUS_EVERY == simprop.CORPUS_EVERY - 1:
         from av import corpus
 
-        return corpus.make_case(rng, max_steps=40 if tier == "quick" else 80)
+        return corpus.make_case(rng, max_steps=40 if tier == "quick" else 80, prefer=("timed",))  # mostly the models that have timed compartments
     pf = {"p_timed": 1.0, "p_group_junction": 0.5, "p_transfer": 0.7, "n_pops": (1, 3), "n_ord": (3, 6)}
     if tier == "thorough":
         pf["steps"] = (5, 60)
